@@ -216,6 +216,147 @@ impl crate::explore::CaseSpace for AppIinProduct {
 /// WRITE g80v1 with every range [a, b], 0 <= a <= b <= 15, all
 /// written bits 0 or all 1: the restart indication is cleared exactly when index 7 is in the
 /// range and written as 0, whatever other indices the range names
+/// An event series that does not fit one fragment awaits its first confirm with events of a small
+/// type (analog or counter, capacity 3) selected but not yet sent; an update then overflows that
+/// type and discards the oldest, selected event.  Cases: type (2) x class of the late point (2 / 3)
+/// x number of binary events ahead (90 / 100).  Nothing fails; the next fragment reports the
+/// overflow; once everything is confirmed and read again the class indications are all clear.
+pub struct OverflowDuringSeries;
+
+impl crate::explore::CaseSpace for OverflowDuringSeries {
+    fn name(&self) -> String {
+        "overflow-of-selected-events-during-a-series".into()
+    }
+    fn seeded(&self) -> bool {
+        true
+    }
+    fn total(&self) -> usize {
+        8
+    }
+    fn run(&self, index: usize, transcript: bool) -> RunResult {
+        use super::common;
+        use crate::explore::Violation;
+        use crate::osim::{OCfg, OSim};
+        use crate::wire::app::{self, fc};
+        use dnp3::outstation::database::*;
+        let mut res = RunResult::default();
+        res.obs = index as u64 + 909090;
+        let analog = index % 2 == 0;
+        let late_class = if (index / 2) % 2 == 0 { EventClass::Class2 } else { EventClass::Class3 };
+        let n_bin: u16 = if index / 4 == 0 { 90 } else { 100 };
+        let mut buf = [0u16; 8];
+        buf[0] = 120;
+        buf[if analog { 5 } else { 3 }] = 3;
+        let cfg = OCfg { sol_tx: 249, event_buf: buf, ..Default::default() };
+        let mut sim = OSim::new(&cfg, 1);
+        sim.db(|db| {
+            common::add_binaries(db, n_bin, Some(EventClass::Class1));
+            for i in 0..4u16 {
+                let class = Some(if i == 3 { late_class } else { EventClass::Class2 });
+                if analog {
+                    db.add(i, class, AnalogInputConfig::default());
+                } else {
+                    db.add(i, class, CounterConfig::default());
+                }
+            }
+        });
+        sim.db(|db| {
+            for i in 0..n_bin {
+                db.update(i, &common::binary(true, 10 + i as u64), UpdateOptions::detect_event());
+            }
+            for i in 0..3u16 {
+                if analog {
+                    db.update(i, &common::analog(100.0 + i as f64, 500), UpdateOptions::detect_event());
+                } else {
+                    db.update(i, &common::counter(100 + i as u32, 500), UpdateOptions::detect_event());
+                }
+            }
+        });
+        sim.take_out();
+        let key = format!("{}-late-{:?}-{}-binaries", if analog { "analog" } else { "counter" }, late_class, n_bin);
+        let mut seq = 1u8;
+        sim.send(&app::request(seq, fc::READ, &app::class_headers(true, true, true, false)));
+        let first: Vec<app::Resp> = sim.take_out().iter().filter_map(|t| t.frag()).filter_map(app::Resp::parse).collect();
+        res.transitions += 1;
+        if first.len() != 1 || first[0].fin() || !first[0].con() {
+            res.violation = Some(Violation::new("C13.S0", "series-prefix-not-reached", format!("{key}: {} fragments", first.len())));
+            return res;
+        }
+        // the late update: the small type is at capacity, its oldest event is selected, not sent
+        sim.db(|db| {
+            if analog {
+                db.update(3, &common::analog(777.0, 900), UpdateOptions::detect_event());
+            } else {
+                db.update(3, &common::counter(777, 900), UpdateOptions::detect_event());
+            }
+        });
+        if let Some(f) = sim.failure() {
+            res.violation = Some(Violation::new("C13.X0", f.clone(), f));
+            return res;
+        }
+        // confirm fragment after fragment; then read and confirm until a READ returns no events
+        let mut pending = Some(first[0].seq());
+        let mut after_overflow: Option<app::Resp> = None;
+        let mut last: Option<app::Resp> = None;
+        for _round in 0..12 {
+            if let Some(s) = pending.take() {
+                sim.send(&app::confirm(s, false));
+            } else {
+                seq = (seq + 1) & 0x0F;
+                sim.send(&app::request(seq, fc::READ, &app::class_headers(true, true, true, false)));
+            }
+            res.transitions += 1;
+            let rs: Vec<app::Resp> = sim.take_out().iter().filter_map(|t| t.frag()).filter_map(app::Resp::parse).collect();
+            if let Some(f) = sim.failure() {
+                res.violation = Some(Violation::new("C13.X0", f.clone(), f));
+                return res;
+            }
+            for r in rs {
+                if transcript {
+                    res.transcript.push(format!("<- {} ({} octets)", app::hex(&r.raw[..4]), r.raw.len()));
+                }
+                if after_overflow.is_none() {
+                    after_overflow = Some(r.clone());
+                }
+                if r.con() {
+                    pending = Some(r.seq());
+                }
+                last = Some(r);
+            }
+            if pending.is_none() && last.as_ref().map(|r| r.fin() && r.objects.is_empty()).unwrap_or(false) {
+                break;
+            }
+        }
+        let Some(next) = after_overflow else {
+            res.violation = Some(Violation::new("C13.S1", "series-not-continued", key));
+            return res;
+        };
+        if next.iin2 & app::iin2::EVENT_BUFFER_OVERFLOW == 0 {
+            res.violation = Some(Violation::new(
+                "C13.S2",
+                "overflow-not-reported-in-the-next-fragment",
+                format!("{key}: an event was discarded during the confirm wait; next fragment {}", app::hex(&next.raw[..4])),
+            ));
+            return res;
+        }
+        let Some(end) = last else {
+            res.violation = Some(Violation::new("C13.S1", "series-not-continued", key));
+            return res;
+        };
+        if !end.objects.is_empty() || end.iin1 & 0x0E != 0 {
+            res.violation = Some(Violation::new(
+                "C13.S3",
+                "class-indication-without-events",
+                format!("{key}: after everything was read and confirmed: {} ({} object octets)", app::hex(&end.raw[..4]), end.objects.len()),
+            ));
+            return res;
+        }
+        res.nontrivial = true;
+        res.model_states.push(index as u64);
+        res
+    }
+}
+
 pub struct RestartWrites;
 
 impl crate::explore::CaseSpace for RestartWrites {
@@ -291,6 +432,9 @@ pub fn replay(scenario: &str, path: &[usize]) -> Option<RunResult> {
     if scenario == (super::c03x::Capacities { id: "C13" }).name() {
         return Some(super::c03x::Capacities { id: "C13" }.run(path[0], true));
     }
+    if scenario == OverflowDuringSeries.name() {
+        return Some(OverflowDuringSeries.run(path[0], true));
+    }
     if scenario == RestartWrites.name() {
         return Some(RestartWrites.run(path[0], true));
     }
@@ -309,6 +453,7 @@ pub fn check(tier: &str) -> i32 {
     c.cases(&super::c03x::Capacities { id: "C13" });
     c.cases(&AppIinProduct);
     c.cases(&RestartWrites);
+    c.cases(&OverflowDuringSeries);
     c.finish(
         "model_checking",
         "(restart writes) WRITE g80v1 over every range [a, b] within 0..=15, all bits 0 or all 1: the restart indication clears exactly when index 7 is covered and written 0; (application indications) all 16 combinations of the application's need-time / local-control / device-trouble / config-corrupt answers x 4 kinds of response (null unsolicited, non-READ answer, READ answer, data unsolicited): each bit mirrors the answer; (limits differ per type) 16 assignments of the limits 1..8 to the 8 types and 8 with one type switched off, every type filled exactly to its limit: nothing is displaced, everything is delivered, and after the confirmation no class bit and no overflow bit remains; (overflow per type) every ordered pair of the 8 event types (one overflowed, the other holding exactly its limit, one less, or configured to keep no events at all): the overflow bit is reported with the discard, stays after the confirmation exactly if a type is still at capacity, and clears once that type is confirmed too; (histories) every event history over the listed alphabet (C03's alphabet plus broadcasts of the three confirm modes, WRITE of the restart bit to 0 and 1, reconnect, flips of the application's need-time / config-corrupt answers) up to the listed depth, executed on the real OutstationTask; for every first transmission of a response the oracle recomputes IIN1 and IIN2.3/2.5 from the event ledger and the indication model and compares all ten bits; non-trivial = at least two responses were checked; distinct = distinct observation trace",
